@@ -2,6 +2,6 @@ SPECIFICATION Spec
 CONSTANTS
   Cases <- MC_Cases
   Machines <- MC_Machines
-  MaxLen <- MC_MaxLen
+  MaxLenOf <- MC_MaxLenOf
 INVARIANT HistLaws
 CONSTRAINT ExportHist
